@@ -95,7 +95,9 @@ def run(ctx, model_ok):
     path_keys = [k for k in dc.call_keys(R) if R.uses_paths(k) and k != 'BSC_posix_spawn']
     reqs, exps, twins, wevs = [], [], [], []
     lookup = R.lookup_code
-    for key in (rng.sample(path_keys, 12) if ctx.quick() else path_keys):
+    # every syscall that shows more than one path is always included (they reassemble several lookups of one window)
+    multi = [k for k in path_keys if any(t in R.toks_text(k) for t in ('PSecond', 'PNth 1', 'PLast'))]
+    for key in (multi + rng.sample([k for k in path_keys if k not in multi], 8) if ctx.quick() else path_keys):
         for nl in (0, 1, 2, 3):
             paths = [(rng.randint(1, 999), rand_text(rng, rng.choice([3, 24, 25, 57, 90, 184]))) for _ in range(nl)]
             first = dc.in_domain_first(R, key, rng)
